@@ -176,6 +176,14 @@ spec fn burst_ok(s2: LS, now: int, I: int, B: int) -> bool { credit(s2, now, I) 
 spec fn rel(now: Instant, start: Instant) -> int { now.ns() - start.ns() }
 """
 
+RL_NEW = dict(file="src/draw_target.rs", container="RateLimiter", name="new", ret="r",
+              requires=[("rate-nonzero", "rate >= 1")],   # documented: "Will panic if refresh_rate is 0"
+              ensures=[("wf", "r.wf()"),
+                       ("full-bucket", "r.capacity == 20"),
+                       ("C05-interval-upper", "(r.interval as int - 1) * (rate as int) < 1000"),
+                       ("C05-interval-lower", "(r.interval as int) * (rate as int) >= 1000"),
+                       ("clock", "r.prev.ns() < 0x8000_0000_0000_0000")])   # prev is a reading of the clock
+
 RL_ALLOW = dict(file="src/draw_target.rs", container="RateLimiter", name="allow", ret="res", props=["C05"],
                 requires=[("wf", "old(self).wf()"), ("time-range", "now.ns() - old(self).prev.ns() <= DURATION_MAX_NS()")],
                 ensures=[("wf", "final(self).wf() && final(self).interval == old(self).interval"),
